@@ -6,7 +6,7 @@ HERE = os.path.dirname(os.path.abspath(__file__))
 VERIF = os.path.dirname(HERE)
 REPO = os.environ.get("VERIF_REPO", "/repo")
 TARGET = "/var/tmp/verif-kani-target"
-LOGS = os.path.join(VERIF, "build", "kani-logs")
+LOGS = os.path.join(os.environ.get("VERIF_BUILD") or (os.path.join(VERIF, "build") if REPO == "/repo" else "/var/tmp/verif-build-" + hashlib.sha1(REPO.encode()).hexdigest()[:8]), "kani-logs")
 
 
 def hooks_present():
